@@ -30,6 +30,11 @@ func SeedRuntime(s uint64) {
 func PinProcess() {
 	runtime.GOMAXPROCS(1)
 	debug.SetGCPercent(-1)
+	// no collection during a run - unless a run allocates without bound (a stack
+	// caught in a zero-length timer loop): then the collector keeps the process
+	// inside 3 GB and the run ends in the runner's watchdog instead of exhausting
+	// the machine
+	debug.SetMemoryLimit(3 << 30)
 }
 
 // BetweenRuns collects garbage explicitly; called only while no run is active.
